@@ -55,10 +55,14 @@ def replay(mods, scn, cse=None):
         mism.append(dict(what=what, **kw))
 
     try:
-        model, symtab = make_ui_model(d, ui)
         import json as _json
-        pn, sm, sn, cm = ekf_args(d, symtab, variety="c16:" + _json.dumps(scn["def"]["state"]) + str(cse))
-        cfg = python.Config(common_subexpression_elimination=bool(cse), innovation_filtering=d.gate())
+        from build import resolve_presentation
+        pres = resolve_presentation("random:c16:" + _json.dumps(scn["def"]["state"]) + str(cse), d)
+        model, symtab = make_ui_model(d, ui, container=pres["container"], order=pres["order"], proactive_simplify=pres.get("proactive_simplify", False))
+        pn, sm, sn, cm = ekf_args(d, symtab, order=pres["order"], variety=pres["variety"])
+        # the adapter's step is fixed (1/10 s) whatever the configured maximum step of the managed runtime is
+        cfg = python.Config(common_subexpression_elimination=bool(cse), innovation_filtering=d.gate(),
+                            max_dt_sec=[0.1, 0.05, 0.5, 0.02][len(_json.dumps(scn["def"]["state"])) % 4])
         adapter = python.SklearnEKFAdapter.Create(model, pn, sm, sn, cm, config=cfg)
         # data matrix in the documented layout: [controls..., readings of each sensor in key order...]
         X = []
